@@ -365,11 +365,28 @@ func sqliteOpen(path string, ro bool) (*sql.DB, error) {
 	return sql.Open("sqlite3", dsn)
 }
 
+// startFiles caches the bytes of the start database per start state (the set-up SQL of a
+// start state is fixed, so the file is built once and copied afterwards).
+var startFiles sync.Map
+
 // createStart writes the start database file (nothing for "absent").
 func createStart(path string, c *tcase) error {
 	if c.start == "absent" {
 		return nil
 	}
+	if b, ok := startFiles.Load(c.start); ok {
+		return os.WriteFile(path, b.([]byte), 0o644)
+	}
+	if err := buildStart(path, c); err != nil {
+		return err
+	}
+	if b, err := os.ReadFile(path); err == nil {
+		startFiles.Store(c.start, b)
+	}
+	return nil
+}
+
+func buildStart(path string, c *tcase) error {
 	db, err := sqliteOpen(path, false)
 	if err != nil {
 		return err
@@ -1349,9 +1366,17 @@ func main() {
 	}
 	w := out.New(*outDir)
 	defer w.Close()
+	// the dev database files live in a memory file system when there is one (every statement of
+	// the thousands of sessions is its own fsync'ed transaction otherwise); TMPDIR overrides
 	tmpRoot := os.Getenv("TMPDIR")
 	if tmpRoot == "" {
 		tmpRoot = os.TempDir()
+		if fi, err := os.Stat("/dev/shm"); err == nil && fi.IsDir() {
+			if d, err := os.MkdirTemp("/dev/shm", "verif-c14-"); err == nil {
+				tmpRoot = d
+				defer os.RemoveAll(d)
+			}
+		}
 	}
 	var (
 		cases   []*tcase
@@ -1414,6 +1439,9 @@ func main() {
 	}
 	if bad > 0 {
 		w.Close()
+		if strings.HasPrefix(tmpRoot, "/dev/shm/verif-c14-") {
+			os.RemoveAll(tmpRoot)
+		}
 		os.Exit(1)
 	}
 }
